@@ -20,12 +20,14 @@ package main
 //                                         held at stream.next.wait (PARKED)
 //     (await)                             release the held consumer into the select / look at a consumer that is
 //                                         in the select: result as for (next), PARKED (woke, found nothing, held
-//                                         again) or BLOCKED (nothing ready: still in the select after 30 ms)
+//                                         again) or BLOCKED (nothing ready: the goroutine is parked in the select)
 //     (publish OP (ev ...) ...) (signal)  a commit held at commit.broadcast / released
 //     (close) (cancel) (engineclose)      Stream.Close / cancel the consumer's context / Engine.Close
 
 import (
+	"bytes"
 	"context"
+	"runtime"
 	"strconv"
 	"strings"
 	"sync"
@@ -73,7 +75,32 @@ func schedHook(name string, info lungo.VerifInfo) {
 	}
 }
 
-const schedBlocked = 40 * time.Millisecond
+// goroutineInSelect reports whether goroutine id is parked in the `select` of
+// Stream.next (runtime state "select", frame (*Stream).next).  Every waker of
+// a schedule (commit, Close, cancel, Engine.Close) makes the goroutine runnable
+// synchronously, so "parked in the select when we look" = nothing is ready:
+// BLOCKED is observed positively, not by a timeout.
+func goroutineInSelect(id uint64) bool {
+	buf := make([]byte, 1<<20)
+	for {
+		n := runtime.Stack(buf, true)
+		if n < len(buf) {
+			buf = buf[:n]
+			break
+		}
+		buf = make([]byte, 2*len(buf))
+	}
+	head := []byte("goroutine " + strconv.FormatUint(id, 10) + " [")
+	i := bytes.Index(buf, head)
+	if i < 0 {
+		return false
+	}
+	rest := buf[i+len(head):]
+	if j := bytes.Index(rest, []byte("\n\n")); j >= 0 {
+		rest = rest[:j]
+	}
+	return bytes.HasPrefix(rest, []byte("select")) && bytes.Contains(rest, []byte("(*Stream).next"))
+}
 
 type schedRun struct {
 	*sRun
@@ -82,6 +109,7 @@ type schedRun struct {
 	ctx         context.Context
 	cancel      func()
 	res         chan bool // result of the consumer's current call
+	gid         uint64    // goroutine id of the consumer\'s current call
 	state       string    // idle | held | select | ended
 	pubDone     chan struct{}
 	closed      bool // engine closed
@@ -136,18 +164,38 @@ func (r *schedRun) showResult(ok bool) string {
 	return o.res
 }
 
-// wait for the consumer: call returned, held again, or nothing within d
-func (r *schedRun) watchConsumer(d time.Duration) string {
-	select {
-	case ok := <-r.res:
-		r.state = "idle"
-		return r.showResult(ok)
-	case <-r.ctl.parked:
-		r.state = "held"
-		return "PARKED"
-	case <-time.After(d):
-		r.state = "select"
-		return "BLOCKED"
+// wait for the consumer: the call returned, it is held at the wait point
+// again, or it is parked in the select with nothing ready (BLOCKED)
+func (r *schedRun) watchConsumer() string {
+	deadline := time.Now().Add(5 * time.Second)
+	for {
+		select {
+		case ok := <-r.res:
+			r.state = "idle"
+			return r.showResult(ok)
+		case <-r.ctl.parked:
+			r.state = "held"
+			return "PARKED"
+		case <-time.After(2 * time.Millisecond):
+		}
+		if r.gid != 0 && goroutineInSelect(r.gid) {
+			// look once more at the channels: the goroutine may have parked at the hook before we looked
+			select {
+			case ok := <-r.res:
+				r.state = "idle"
+				return r.showResult(ok)
+			case <-r.ctl.parked:
+				r.state = "held"
+				return "PARKED"
+			default:
+			}
+			r.state = "select"
+			return "BLOCKED"
+		}
+		if time.Now().After(deadline) {
+			r.state = "select"
+			return "HANG"
+		}
 	}
 }
 
@@ -186,23 +234,26 @@ func (r *schedRun) qstep1(st *sStep) string {
 	case "next", "trynext":
 		r.res = make(chan bool, 1)
 		s, c, block := r.stream, r.ctx, st.kind == "next"
+		gidc := make(chan uint64, 1)
 		go func(res chan bool) {
+			gidc <- lungo.VerifGoroutineID()
 			if block {
 				res <- s.Next(c)
 			} else {
 				res <- s.TryNext(c)
 			}
 		}(r.res)
-		out := r.watchConsumer(2 * time.Second)
+		r.gid = <-gidc
+		out := r.watchConsumer()
 		if out == "BLOCKED" {
-			return "HANG"
+			return "HANG" // cannot happen: the consumer is held at the wait point before the select
 		}
 		return out
 	case "await":
 		if r.state == "held" {
 			r.ctl.release <- struct{}{}
 		}
-		return r.watchConsumer(schedBlocked)
+		return r.watchConsumer()
 	case "publish":
 		r.lastPublish = st
 		r.ctl.mu.Lock()
